@@ -239,6 +239,17 @@ class CallMixin:
                 return VInt(x)
             return VInt(z3.If(x >= 0, z3.ToInt(x), -z3.ToInt(-x)))
         if name == 'float':
+            x = self.arith_term(args[0])
+            if x.sort() == I and not isinstance(args[0], VBool) and not z3.is_int_value(z3.simplify(x)):
+                # int -> float is exact only up to 2**53; beyond that the nearest double (relative error 2**-53).
+                # (floats are reals otherwise - stated assumption - but this conversion is where precision is lost)
+                self.used_assumption('float(int) is exact for |n| <= 2**53 and within relative error 2**-53 beyond')
+                fl = self.fresh('float_of', self.ctx.num)
+                xr = self.num_term(args[0])
+                big = 2 ** 53
+                self.fact(z3.Implies(z3.And(x >= -big, x <= big), fl == xr))
+                self.fact(z3.And(fl * big <= xr * big + z3.If(xr >= 0, xr, -xr), fl * big >= xr * big - z3.If(xr >= 0, xr, -xr)))
+                return VNum(fl)
             return VNum(self.num_term(args[0]))
         if name == 'bool':
             return VBool(self.truth(args[0]))
